@@ -15,6 +15,7 @@ from sim import core
 PROP = 'C11'
 VARIANTS = ['bare']
 MAX_OPS = 40
+ALIEN_SYMBOL = 'ozt'
 CLOCK_ERRORS_BY_NAME = {e.__name__: e for e in (
     KeyError, LookupError, IndexError, ValueError, AttributeError, TypeError,
     RuntimeError, OSError, StopIteration, ArithmeticError)}
@@ -153,7 +154,7 @@ def gen(seed, run, tier='quick'):
          'clockupdate': rng.choice([0, 0, 1, 1]),
          'bad_validity': rng.choice([0, 1, 2]),
          'datetime_validity': rng.choice([0, 0, 1]),
-         'late': rng.choice([1, 2]) if late else 0,
+         'late': rng.choice([1, 2]) if late else rng.choice([0, 1]),
          'mixed_kind': rng.choice([0, 1, 2])}
     sym_cur_p = rng.choice([0, 0.15, 0.4])
     kinds = list(w)
@@ -212,6 +213,13 @@ def gen(seed, run, tier='quick'):
         else:
             s = str(p).rjust(j + 1, '0')
             v = s[:-j] + '.' + s[-j:]
+        if t == 'str' and rng.random() < 0.4:
+            # a string "convertible to a number": ratio notation, digits
+            # grouped with underscores, blanks around
+            v = rng.choice([f"{p}/{10 ** j}", f" {v} ",
+                            v if len(v.split('.')[0]) < 4 else
+                            v.split('.')[0][:-3] + '_' + v.split('.')[0][-3:]
+                            + ('.' + v.split('.')[1] if '.' in v else '')])
         return {'t': t, 'v': v}
 
     def rate_specs(ci):
@@ -331,6 +339,12 @@ def gen(seed, run, tier='quick'):
         elif k == 'bad_validity':
             ops.append(['update', ci, rng.choice(INVALID_VALIDITIES),
                         rate_specs(ci)])
+        elif k == 'late' and rng.random() < 0.3:
+            # a rate spec that names, by its symbol, a registered unit
+            # that is no currency (an ounce of gold is not money here)
+            ops.append(['alien_update', ci,
+                        _spell_validity(rng, convs[ci]['kind'], some_date()),
+                        amount(1), rate_specs(ci), rng.randrange(4)])
         elif k == 'late':
             if rng.random() < 0.3:
                 ops.append(['late_register'])
@@ -553,6 +567,9 @@ def execute(h):
     clocks = [sysclock]
     cclk = []
 
+    # the process knows other units than currencies, too
+    from quantity import Quantity, QuantityMeta
+    QuantityMeta('Bullion', (Quantity,), {}, ref_unit_symbol=ALIEN_SYMBOL)
     curs = []
     for c in cfg['curs']:
         if c['how'] == 'iso':
@@ -1118,6 +1135,23 @@ def execute(h):
                     curs.append(Money.register_currency(cfg['late']['sym']))
                     bump(probes, 'currency_registered_mid_history')
                 out = 'registered'
+            elif kind == 'alien_update':
+                ci = op[1] % len(convs)
+                base = cfg['convs'][ci]['base'] % n_cur
+                good = [[[s[0][0] % n_cur, s[0][1]], s[1], s[2]]
+                        for s in op[4] if s[0][0] % n_cur != base]
+                lib = [(curs[c] if how == 'obj' else curs[c].symbol,
+                        mk_amount(amt), mk_um(um))
+                       for (c, how), amt, um in good]
+                lib.insert(op[5] % (len(lib) + 1),
+                           (ALIEN_SYMBOL, mk_amount(op[3]), 1))
+                o = observe(lambda: ('ok', convs[ci].update(
+                    mk_validity(op[2]), lib)))
+                bump(faults, 'rate_spec_names_a_unit_that_is_no_currency')
+                if o[0] == 'ok':
+                    violate('update', 'accepted_invalid', i, validity=op[2],
+                            observed=list(o), names=ALIEN_SYMBOL)
+                out = o[1] if o[0] != 'ok' else 'ok'
             elif kind == 'late_update':
                 if not cfg.get('late'):
                     log.append([i, 'skipped'])
